@@ -64,14 +64,34 @@ def scripted(draw):
         if o == "N":
             acts.append(None)
             continue
-        kinds = ["source", "outputs", "metadata", "ec", "delete"] if c["cell_type"] == "code" else ["source", "metadata", "delete", "attach"]
+        kinds = ["source", "outputs", "metadata", "ec", "delete", "type_only", "source_exotic", "stream_cr"] if c["cell_type"] == "code" else \
+            ["source", "metadata", "delete", "attach", "type_only", "source_exotic"]
         a = draw(st.sampled_from(kinds))
         acts.append(a)
         if a == "delete":
             new[o][i] = None
             continue
+        # some actions need something in the BASE cell to act on (cells[i] is the base's own cell object)
+        if a == "type_only":
+            c["metadata"]["points"] = draw(st.sampled_from([2, 1, 0, 2.0, True]))
+        elif a == "source_exotic":
+            # the same distinct lines, separated by a form feed / lone CR / unicode line separator instead of the first "\n"
+            c["source"] = c["source"].replace("\n", draw(st.sampled_from(["\x0c", "\r", "\u2028", "\x1e", "\x85"])), 1)
+        elif a == "stream_cr":
+            c["outputs"] = [{"output_type": "stream", "name": "stdout", "text": "epoch 1\r 10%|#   |\r 50%|##  |\r100%|####|\nloss 0.123\ndone\n"}]
         c2 = copy.deepcopy(c)
-        if a == "source":
+        if a == "type_only":
+            v = c["metadata"]["points"]
+            c2["metadata"]["points"] = draw(st.sampled_from([x for x in ([2, 2.0] if v in (2, 2.0) and v is not True else [1, 1.0, True] if v == 1 else [0, 0.0, False])
+                                                                 if type(x) is not type(v)]))
+        elif a == "source_exotic":
+            lines = c2["source"].splitlines(True)
+            k = draw(st.integers(1, len(lines) - 1))
+            lines[k] = lines[k].rstrip("\n") + "  # edited\n"
+            c2["source"] = "".join(lines)
+        elif a == "stream_cr":
+            c2["outputs"][0]["text"] = c2["outputs"][0]["text"].replace("0.123", draw(st.sampled_from(["0.033", "0.1"])))
+        elif a == "source":
             lines = c2["source"].splitlines(True)
             w = draw(st.sampled_from(["append", "modify", "insert", "drop"]))
             ch = LETTERS[i % 26]
